@@ -27,7 +27,11 @@ RULE = ("random loop-free networks: D8 networks from random DEMs, arbitrary fore
         "hit; float fields with valid values a dyadic step 2**-4..2**-40 away from the nodata value (nodata -9999, "
         "0, -1, 1, 1e20-like; both signs, both directions); sparse point fields (all zero / all nodata except 1-3 "
         "cells, points also on cells outside the network and on the last cell) on rasters and vector networks of "
-        "50..120 cells; all four area units, projected (unequal/positive resolutions) and geographic grids. non-trivial = "
+        "50..120 cells; per run 5 (escalated: 10) LARGE networks judged by the harness' own integer oracle - two snakes / vector "
+        "chains of 52 000..80 000 cells (steps * cells >= 2**31; always under the rank order), a comb of 215 000..420 000 "
+        "cells with cells outside the network, two of intermediate size (2 000..75 000, log-uniform) - under the rank order "
+        "(order_cells('sort'), ftype='nextxy', vector default) and the walk order, index dtypes i32/i64/u32: cell order, accuflux up/down, "
+        "mass at the pits, upstream area in cells; all four area units, projected (unequal/positive resolutions) and geographic grids. non-trivial = "
         ">= 2 valid cells, >= 1 confluence, path length >= 3; distinct = SHA-1 of (op, network, order, field, options)")
 
 NOEND = -999999999999
@@ -813,6 +817,252 @@ def case_errors(ctx, flw, ds, shape):
 # ------------------------------------------------------------------------------------------------
 IDX_DTYPES = [np.int32, np.int32, np.int64, np.uint32]
 
+# ------------------------------------------------------------------------------------------------
+# large networks (tens of thousands of steps along one flow path / hundreds of thousands of cells)
+# ------------------------------------------------------------------------------------------------
+# Quantities the implementation derives from the network - ranks, rank * size, positions in the cell order,
+# accumulated counts - leave int16 / int32 only on networks far larger than the ones the Lean driver is asked about.
+# These cases are judged by the harness' own oracle (ranks by pointer jumping until nothing changes, then one
+# sweep over python integers in the oracle's own order), as `spec` failures. The interpreted core.rank is quadratic in
+# the number of steps it walks from the lowest-numbered cell not ranked yet, so the generators keep the pits at low
+# cell numbers (top corners / top row / left column, chain labels increasing upstream block by block).
+BIG_BUILDS = ["sort", "sort", "nextxy", "nextxy", "walk"]
+
+
+def _mv_of(dtype):
+    return -1 if np.issubdtype(dtype, np.signedinteger) else int(np.iinfo(dtype).max)
+
+
+def big_snake(rs, lo, hi):
+    """snake through the whole raster, n in [lo, hi]; the last few percent of the path may lie outside the network and
+    the river may be cut by 1-2 nodata cells near its upper end (the cell upstream of a gap is a pit)"""
+    from common import snake_path
+    n0 = rs.randint(lo, hi)
+    nrow = rs.randint(max(2, int(n0 ** 0.5 * 0.6)), max(3, int(n0 ** 0.5 * 1.6)))
+    ncol = max(2, n0 // nrow)
+    by, corner = rs.choice([("row", "tl"), ("row", "tr"), ("col", "tl"), ("col", "bl")])
+    path = snake_path(nrow, ncol, by, corner)
+    n = nrow * ncol
+    L = n if rs.random() < 0.5 else rs.randint(int(0.93 * n), n)
+    ds = np.full(n, n, dtype=np.int64)
+    ds[path[0]] = path[0]
+    ds[path[1:L]] = path[:L - 1]
+    cuts = sorted(rs.sample(range(int(0.9 * L), L - 1), rs.choice([0, 0, 1, 2]))) if L > 40 else []
+    for q in cuts:
+        ds[path[q]] = n
+        ds[path[q + 1]] = path[q + 1]
+    return ds, (nrow, ncol), "large-snake", {"nrow": nrow, "ncol": ncol, "by": by, "corner": corner, "L": L, "cuts": cuts}
+
+
+def big_comb(rs, lo, hi):
+    """'comb': parallel reaches of random length (the cells beyond a reach are nodata) draining into a trunk along the
+    left column (reaches = rows, trunk flows north) or the top row (reaches = columns, trunk flows west); a few trunk
+    cells are pits of their own, so there are several basins"""
+    n0 = rs.randint(lo, hi)
+    nrow = rs.randint(max(2, int(n0 ** 0.5 * 0.7)), max(3, int(n0 ** 0.5 * 1.4)))
+    ncol = max(2, n0 // nrow)
+    n = nrow * ncol
+    idx = np.arange(n, dtype=np.int64).reshape(nrow, ncol)
+    nprs = np.random.default_rng(rs.getrandbits(32))
+    rows = rs.random() < 0.5
+    if rows:
+        ds = idx - 1
+        ds[:, 0] = idx[:, 0] - ncol
+        ln = nprs.integers(max(1, ncol // 2), ncol + 1, size=nrow)
+        ds[np.arange(ncol)[None, :] >= ln[:, None]] = n
+        trunk = idx[:, 0]
+    else:
+        ds = idx - ncol
+        ds[0, :] = idx[0, :] - 1
+        ln = nprs.integers(max(1, nrow // 2), nrow + 1, size=ncol)
+        ds[np.arange(nrow)[:, None] >= ln[None, :]] = n
+        trunk = idx[0, :]
+    ds[0, 0] = 0
+    pits = [int(trunk[rs.randrange(trunk.size)]) for _ in range(rs.choice([0, 1, 3]))]
+    ds = ds.ravel()
+    for q in pits:
+        ds[q] = q
+    return ds, (nrow, ncol), "large-comb", {"nrow": nrow, "ncol": ncol, "reaches": "rows" if rows else "columns", "extra_pits": pits}
+
+
+def big_chain(rs, lo, hi):
+    """vector network: one chain of n nodes whose labels increase upstream block by block and are shuffled inside the
+    blocks (block size 1 / 16 / 64); 0-2 nodes near the upper end are missing (the node upstream of a gap is a pit)"""
+    n = rs.randint(lo, hi)
+    B = rs.choice([1, 16, 64])
+    nprs = np.random.default_rng(rs.getrandbits(32))
+    path = np.arange(n, dtype=np.int64)
+    if B > 1:
+        for a in range(0, n, B):
+            path[a:a + B] = nprs.permutation(path[a:a + B])
+    ds = np.full(n, n, dtype=np.int64)
+    ds[path[0]] = path[0]
+    ds[path[1:]] = path[:-1]
+    cuts = sorted(rs.sample(range(int(0.9 * n), n - 1), rs.choice([0, 1, 2]))) if n > 40 else []
+    for q in cuts:
+        ds[path[q]] = n
+        ds[path[q + 1]] = path[q + 1]
+    return ds, None, "large-chain", {"n": n, "block": B, "cuts": cuts}
+
+
+def np_steps_to_pit(ds):
+    """harness' own number of steps to the pit per cell (int64 array; cells outside the network: 0) of a loop-free
+    network given as int64 array with n = missing: pointer jumping, repeated until no pointer changes"""
+    n = ds.size
+    me = np.arange(n, dtype=np.int64)
+    ptr = np.where(ds == n, me, ds)
+    dist = (ptr != me).astype(np.int64)
+    for _ in range(70):
+        nxt = ptr[ptr]
+        if np.array_equal(nxt, ptr):
+            return dist
+        dist = dist + dist[ptr]
+        ptr = nxt
+    raise RuntimeError("harness: large network is not loop-free")
+
+
+def big_oracle(ds, vals, direction):
+    """accumulation of integer values (python ints: no wrap-around) over a loop-free network, in the oracle's own order"""
+    n = ds.size
+    steps = np_steps_to_pit(ds)
+    valid = np.flatnonzero(ds != n)
+    order = valid[np.argsort(steps[valid], kind="stable")].tolist()     # downstream first
+    d = ds.tolist()
+    acc = list(vals)
+    if direction == "up":
+        for i in reversed(order):
+            j = d[i]
+            if j != i:
+                acc[j] += acc[i]
+    else:
+        for i in order:
+            j = d[i]
+            if j != i:
+                acc[i] += acc[j]
+    return acc, int(steps.max()) if n else 0
+
+
+def big_case(ctx, subseed, size_class):
+    import random as _random
+    from pyflwdir.pyflwdir import FlwdirRaster
+    from pyflwdir.flwdir import Flwdir
+    rs = _random.Random(subseed)
+    if size_class == "long-path":          # (steps along the longest path) * (number of cells) >= 2**31
+        gen = rs.choice([big_snake, big_snake, big_chain])
+        ds, shape, fam, params = gen(rs, 52000, 80000)
+    elif size_class == "many-cells":       # several hundred thousand cells, short paths, cells outside the network
+        ds, shape, fam, params = big_comb(rs, 215000, 420000)
+    else:                                  # anything in between, sizes log-uniform
+        gen = rs.choice([big_snake, big_comb, big_chain])
+        hi = 2 ** rs.uniform(11, 16.2)
+        ds, shape, fam, params = gen(rs, int(hi * 0.8), int(hi))
+    n = int(ds.size)
+    idt = rs.choice(IDX_DTYPES)
+    a = np.where(ds == n, _mv_of(idt), ds).astype(np.uint64 if idt == np.uint32 else np.int64).astype(idt)
+    cache = rs.random() < 0.8
+    builds = [b for b in BIG_BUILDS if not (size_class == "long-path" and b == "walk") and not (shape is None and b == "nextxy")]
+    build = rs.choice(builds)
+    if shape is None:
+        flw = Flwdir(idxs_ds=a, cache=cache)
+        if build == "walk":
+            flw.order_cells("walk")         # (the default of a vector network is the rank order)
+    else:
+        flw = FlwdirRaster(idxs_ds=a, shape=shape, ftype="nextxy" if build == "nextxy" else "d8", cache=cache)
+        if build == "sort":
+            flw.order_cells("sort")         # (nextxy objects use the rank order by default, d8 objects the walk order)
+    ctx.count("family:" + fam)
+    ctx.count("feature:large-network:" + size_class)
+    ctx.count("feature:large-network:order=" + build)
+    # field: ones / small non-negative integers / dyadic k/8; cells outside the network hold arbitrary values
+    nprs = np.random.default_rng(rs.getrandbits(32))
+    kind = rs.choice(["ones", "ints", "dyadic"])
+    nodata = rs.choice([-9999, -1])
+    inside = ds != n
+    if kind == "dyadic":
+        dt = rs.choice(["float32", "float64"]) if 40 * n < 2 ** 24 else "float64"
+        scale = 8
+        ints_ = nprs.integers(0, 41, size=n)
+    else:
+        dt = rs.choice(["int32", "int64", "float64"] + (["float32"] if 6 * n < 2 ** 24 else []))
+        scale = 1
+        ints_ = np.ones(n, dtype=np.int64) if kind == "ones" else nprs.integers(0, 7, size=n)
+    ints_ = np.where(inside, ints_, 7 * scale).astype(np.int64)
+    arr = (ints_ / scale).astype(dt) if scale > 1 else ints_.astype(dt)
+    assert np.array_equal(arr.astype(np.float64) * scale, ints_.astype(np.float64)), "harness: field not exact"
+    direction = rs.choice(["up", "up", "down"])
+    desc = {"op": "large:accuflux", "subseed": subseed, "size_class": size_class, "family": fam, "gen": params,
+            "cells": n, "order": build, "idx_dtype": np.dtype(idt).name, "cache": cache,
+            "field": kind, "dtype": dt, "nodata": nodata, "direction": direction}
+    want, longest = big_oracle(ds, ints_.tolist(), direction)
+    desc["longest_path_steps"] = longest
+    ctx.count("feature:large-network:steps*cells " + (">= 2**31" if longest * n >= 2 ** 31 else "< 2**31"))
+    ctx.count("feature:large-network:cells " + (">= 2**31 / 9999" if n * 9999 >= 2 ** 31 and not inside.all() else "below"))
+    want_np = np.array(want, dtype=np.int64)
+    valid = np.flatnonzero(inside)
+
+    def first_bad(mask):
+        return [int(i) for i in np.flatnonzero(mask)[:5]]
+
+    # (1) the cell order the sweeps use
+    seq = np.asarray(flw.idxs_seq).astype(np.int64)
+    ctx.evaluations += 1
+    pos = np.full(n + 1, -1, dtype=np.int64)
+    ok_range = seq.size == valid.size and seq.size > 0 and seq.min() >= 0 and seq.max() < n
+    if ok_range:
+        pos[seq] = np.arange(seq.size)
+    if not ok_range or (pos[valid] < 0).any():
+        ctx.fail(dict(desc, op="large:cell-order"), "spec", "cell order does not consist of exactly the valid cells of a loop-free "
+                 f"network ({seq.size} entries for {valid.size} valid cells; entries outside the network: "
+                 f"{[int(seq[i]) for i in first_bad(~inside[np.clip(seq, 0, n - 1)])]})")
+    elif (pos[ds[valid]] > pos[valid]).any():
+        ctx.fail(dict(desc, op="large:cell-order"), "spec", "cell order handed to the sweep is not downstream-first (C03 hypothesis) "
+                 f"at cells {[int(valid[i]) for i in first_bad(pos[ds[valid]] > pos[valid])]}")
+    # (2) accumulation = catchment sum (up) / sum along the flow path (down); outside cells untouched; mass at the pits
+    data = arr.reshape(shape) if shape is not None else arr
+    out = flw.accuflux(data, nodata=nodata, direction=direction)
+    ctx.evaluations += 1
+    ctx.count("accuflux:" + direction)
+    got = np.asarray(out).ravel().astype(np.float64) * scale
+    bad = got != want_np.astype(np.float64)
+    if out.shape != data.shape or out.dtype != data.dtype:
+        ctx.fail(desc, "spec", f"shape/dtype not preserved: {out.shape} {out.dtype}")
+    elif bad.any():
+        cells = first_bad(bad)
+        outside_bad = first_bad(bad & ~inside)
+        what = ("accumulation differs from the sum over the upstream catchment" if direction == "up"
+                else "downstream accumulation differs from the sum along the flow path")
+        if outside_bad:
+            what += f"; cells outside the network changed: {outside_bad}"
+        ctx.fail(desc, "spec", f"{what} at cells {cells} ({int(bad.sum())} cells in all)",
+                 impl_scaled=[float(got[i]) for i in cells], expected_scaled=[int(want_np[i]) for i in cells])
+    if direction == "up" and out.shape == data.shape:
+        pits = np.flatnonzero(ds == np.arange(n))
+        ctx.evaluations += 1
+        if float(got[pits].sum()) != float(ints_[valid].sum()):
+            ctx.fail(dict(desc, op="large:mass"), "spec", "mass not conserved: totals at the pits != total over the valid cells",
+                     at_pits_scaled=float(got[pits].sum()), total_scaled=int(ints_[valid].sum()))
+    # (3) upstream area in cells: the number of cells draining through a cell; nodata outside the network
+    cnt, _ = big_oracle(ds, inside.astype(np.int64).tolist(), "up")
+    cnt = np.where(inside, np.array(cnt, dtype=np.int64), -9999)
+    upa = np.asarray(flw.upstream_area()).ravel()
+    ctx.evaluations += 1
+    ctx.count("uparea-unit:cell")
+    bad = upa.astype(np.float64) != cnt.astype(np.float64)
+    if bad.any():
+        cells = first_bad(bad)
+        ctx.fail(dict(desc, op="large:upstream_area"), "spec", f"upstream area (cells) differs from the number of cells of the catchment / "
+                 f"nodata outside the network at cells {cells} ({int(bad.sum())} cells in all)",
+                 impl=[float(upa[i]) for i in cells], expected=[int(cnt[i]) for i in cells])
+
+
+def large_networks(ctx):
+    """per run: two long-path networks (always under the rank order), one many-cells network, two of intermediate size
+    (any order); twice that when escalated"""
+    for _ in range(1 if ctx.escalate == 1 else 2):
+        for size_class in ("long-path", "many-cells", "intermediate", "long-path", "intermediate"):
+            big_case(ctx, ctx.rng.getrandbits(32), size_class)
+
+
 
 def one_network(ctx, ds, shape, fam, full=True):
     rng = ctx.rng
@@ -924,6 +1174,9 @@ def all_forests(n):
 def replay_case(ctx, d):
     """re-run one recorded accuflux case (./check quick C04 --replay file)"""
     desc = d["failure"]["desc"] if "failure" in d else d
+    if str(desc.get("op", "")).startswith("large:") and "subseed" in desc:
+        big_case(ctx, desc["subseed"], desc["size_class"])
+        return True
     if desc.get("op") != "accuflux":
         ctx.notes.append("replay: only accuflux cases are re-run individually; running the generators instead")
         return False
@@ -973,6 +1226,7 @@ def run(ctx):
             if len(ctx.cases) > 300:
                 ctx.flush()
     ctx.exhaustive = True
+    large_networks(ctx)
     for k in range(ncase):
         ds, shape, fam = gen_net(rng, max_cells)
         one_network(ctx, ds, shape, fam)
